@@ -308,12 +308,19 @@ func xferScenario(spec *xferSpec, res *xferResult) *Scenario {
 				}
 				mu.Lock()
 				m.inWrite[s] = ms.Size
+				m.inWriteID[s]++
+				wid := m.inWriteID[s]
 				mu.Unlock()
 				n, err := s.WriteSCTP(data, ms.PPI)
 				mu.Lock()
 				delete(m.inWrite, s)
 				if err == nil {
 					m.wroteBytes[s] += n
+				} else {
+					if m.failedWrite[s] == nil {
+						m.failedWrite[s] = map[int]bool{}
+					}
+					m.failedWrite[s][wid] = true
 				}
 				mu.Unlock()
 				m.Logf(fmt.Sprintf("write sid=%d #%d len=%d ppi=%d", st.SID, i, ms.Size, ms.PPI), "n=%d err=%v", n, err)
